@@ -6,6 +6,7 @@ here=$(pwd)
 ./check setup > /dev/null || exit 2
 for d in seeded/*/; do
   name=$(basename $d)
+  [[ -n "${POWER_FILTER:-}" && ! "$name" =~ $POWER_FILTER ]] && continue
   if python3 -c "import json,sys;sys.exit(0 if json.load(open('$d/meta.json')).get('retired') else 1)"; then echo "$name: retired (see meta.json)"; continue; fi
   prop=$(python3 -c "import json;print(json.load(open('$d/meta.json'))['property'])")
   wt=/tmp/powerwt-$$-$name; where=""
